@@ -41,10 +41,15 @@
     H <ops>                     history on ONE StatGeneralPack (lazy table: wire bytes + in-memory edits); ops `;`-separated, fields `/`-separated
          put/<keyhex>/<t>=<list>   read/<cols>   readself   readzero   get/<keyhex>   getadd/<keyhex>/<v>   getset/<keyhex>/<i>/<v>
          table   sort/<keyhex>/<asc>   sortany/<keyhex>/<asc>/<key2hex>/<asc2>   write   empty
-         answer: u | p | c<t>=<list> | T<cols> | w<size>:<hex> | b0 | b1
+         iter (Iterate: keys handed over # number of calls)   str (ToString: data.Size(), dataBytesSize, len(dataBytes))
+         answer: u | p | c<t>=<list> | T<cols> | w<size>:<hex> | b0 | b1 | I<keys>#<n> | I- | S<a>,<b>,<c>
+    G <t> <init> <ops>          float <-> text cross-type methods (ParseFloat / FormatFloat 'f' 6), t = f | d | s
+                                (D: a DoubleList whose SetString parses with bitSize 64 — the code after fix-D46)
+         ops: aS:<str> aF:<bits32> aD:<bits64>  sS/sF/sD:<i>:<x>  gS:<i> gF:<i> gD:<i>  t
+         answer: u | p | excluded | v<str> | vf<bits> | vd<bits> | t<list>
     K <ops>                     history on a LinkedList
-         ops: af:<v> al:<v> ad:<v> rf rl rm:<k> pb:<k>:<v> cl t n gf gl
-         answer: u | p | v<val> | nil | n<k> | t<list>
+         ops: af:<v> al:<v> ad:<v> rf rl rm:<k> pb:<k>:<v> cl t n gf gl   ts (ToString)  es:<k> (ToString of entity k)
+         answer: u | p | v<val> | nil | n<k> | t<list> | s<str>
 -/
 import Golib.Lists.Run
 import Golib.Lists.Wire
@@ -55,6 +60,8 @@ import Golib.Lists.Cross
 import Golib.Lists.TableWire
 import Golib.Lists.CrossNum
 import Golib.Lists.PackTable
+import Golib.Lists.FloatText
+import Golib.Lists.LinkedText
 import Driver.Common
 
 open Drv Lists
@@ -358,6 +365,63 @@ def doN (t init ops : String) : String :=
   | some l, some ops => semi ((CrossNum.run Growth.go k ops l []).map showN)
   | _, _ => "bad-op"
 
+/-! ### float <-> text cross-type methods -/
+
+open FloatText in
+def parseTV (c : String) (s : String) : Option TV :=
+  match c with
+  | "S" => (parseStr s).map .text
+  | "F" => (parseNat s).map .f32
+  | "D" => (parseNat s).map .f64
+  | _ => none
+
+open FloatText in
+def parseG (s : String) : Option VOp :=
+  match s.splitOn ":" with
+  | ["t"] => some .toArray
+  | ["aS", a] => (parseTV "S" a).map .add
+  | ["aF", a] => (parseTV "F" a).map .add
+  | ["aD", a] => (parseTV "D" a).map .add
+  | ["gS", i] => (parseInt i).map (fun i => .get i .text)
+  | ["gF", i] => (parseInt i).map (fun i => .get i .f32)
+  | ["gD", i] => (parseInt i).map (fun i => .get i .f64)
+  | [o, i, a] =>
+    match (if o == "sS" then some "S" else if o == "sF" then some "F" else if o == "sD" then some "D" else none) with
+    | some c => match parseInt i, parseTV c a with
+      | some i, some x => some (.set i x)
+      | _, _ => none
+    | none => none
+  | _ => none
+
+open FloatText in
+def showTV : TV → String
+  | .text s => showStr s
+  | .f32 b => "f" ++ toString b
+  | .f64 b => "d" ++ toString b
+
+open FloatText in
+def showG {α : Type} (sh : α → String) : VOut α → String
+  | .unit => "u"
+  | .panic => "p"
+  | .excluded => "excluded"
+  | .val o => "v" ++ showTV o
+  | .arr xs => "t" ++ listOf sh xs
+
+def doG (t init ops : String) : String :=
+  let opl := if ops == "-" then [] else ops.splitOn ";"
+  match opl.mapM parseG with
+  | none => "bad-op"
+  | some ops =>
+    if t == "s" then
+      match initOf ([] : Bytes) init with
+      | some l => semi ((FloatText.runV Growth.go FloatText.stringView ops l []).map (showG showStr))
+      | none => "bad-op"
+    else
+      match initOf (0 : Nat) init with
+      | some l => semi ((FloatText.runV Growth.go (FloatText.floatView (t != "f") (t != "D")) ops l []).map
+          (showG (fun b => (if t != "f" then "d" else "f") ++ toString b)))
+      | none => "bad-op"
+
 /-! ### tables -/
 
 def tyOf (t : String) : Nat :=
@@ -520,6 +584,15 @@ def runH : List String → PackTable.St → Bytes → List String → List Strin
       let r := PackTable.write st
       runH os r.1 r.2.2 (("w" ++ toString r.2.1 ++ ":" ++ hexOf r.2.2) :: acc)
     | ["empty"] => runH os st lastW ((if PackTable.isEmpty st then "b1" else "b0") :: acc)
+    | ["iter"] => match PackTable.iterate g st with
+      | some (st', none) => runH os st' lastW ("I-" :: acc)
+      | some (st', some (_, 0)) => runH os st' lastW ("I-" :: acc)     -- no call: nothing to observe
+      | some (st', some (keys, n)) =>
+        runH os st' lastW (("I" ++ ",".intercalate (keys.map showStr) ++ "#" ++ toString n) :: acc)
+      | none => runH os st lastW ("p" :: acc)
+    | ["str"] =>
+      let z := PackTable.sizes st
+      runH os st lastW (s!"S{z.1},{z.2.1},{z.2.2}" :: acc)
     | _ => runH os st lastW ("bad-op" :: acc)
 
 /-! ### sorting -/
@@ -560,6 +633,23 @@ def showK : Linked.Out → String
   | .none_ => "nil"
   | .size n => "n" ++ toString n
   | .arr xs => "t" ++ listOf toString xs
+
+/-- K histories: the ops of the model, plus the text views evaluated on the current model state -/
+def runK : List String → Linked.LL → List String → Option (List String)
+  | [], _, acc => some acc.reverse
+  | o :: os, st, acc =>
+    match o.splitOn ":" with
+    | ["ts"] => runK os st ((match st.toStringL with
+        | some s => "s" ++ showStr s
+        | none => "p") :: acc)
+    | ["es", k] => match parseNat k with
+      | some k => runK os st ((match st.entityToString k with
+          | some s => "s" ++ showStr s
+          | none => "p") :: acc)
+      | none => none
+    | _ => match parseK o with
+      | some op => let r := Linked.LL.step op st; runK os r.2 (showK r.1 :: acc)
+      | none => none
 
 def answer (line : String) : String :=
   match line.splitOn " " with
@@ -608,6 +698,7 @@ def answer (line : String) : String :=
     match isType t, (if ops == "-" then some [] else (ops.splitOn ";").mapM (parseXOp t)) with
     | true, some ops => semi (runXO t ops Multi.MState.init [])
     | _, _ => "bad-op"
+  | ["G", t, init, ops] => if t == "f" || t == "d" || t == "D" || t == "s" then doG t init ops else "bad-op"
   | ["N", t, init, ops] => if t == "i" || t == "l" || t == "f" || t == "d" then doN t init ops else "bad-op"
   | ["C", t, init, ops] => if t == "i" || t == "l" || t == "s" then doC t init ops else "bad-op"
   | ["TP", cols] => match parseTable cols with
@@ -634,8 +725,8 @@ def answer (line : String) : String :=
     | _, _, _, _, _ => "bad-op"
   | ["H", ops] => semi (runH (if ops == "-" then [] else ops.splitOn ";") PackTable.empty [] [])
   | ["K", ops] =>
-    match (if ops == "-" then some [] else (ops.splitOn ";").mapM parseK) with
-    | some ops => semi ((Linked.LL.runTR ops Linked.LL.empty []).1.map showK)
+    match runK (if ops == "-" then [] else ops.splitOn ";") Linked.LL.empty [] with
+    | some outs => semi outs
     | none => "bad-op"
   | _ => "bad-op"
 
